@@ -18,6 +18,8 @@ Inductive gstmt : Type :=
 | GLoop (body : list gstmt)                          (* for { body }                                         *)
 | GLoopN (n : Z) (body : list gstmt)                 (* for i := 0; i < n; i++ { body }    (n a literal)      *)
 | GFor (header : string) (body : list gstmt)         (* for init; cond; post { body }      (header as text)   *)
+| GRange (header : string) (body : list gstmt)       (* for k, v := range x { body }       (header as text)   *)
+| GLabel (name : string)                             (* name:  (the labelled statement follows)              *)
 | GReturn (results : string)                         (* return results                                       *)
 | GBranch (what : string)                            (* break / continue / goto                              *)
 | GOpaque                                            (* a case body that is not expanded                     *)
